@@ -293,8 +293,13 @@ pub fn gen_filter(rng: &mut Rng, m: Option<&Message>) -> DltFilterConfig {
             let n = rng.below(4) as usize;
             let mut v: Vec<String> = (0..n).map(|_| gen_id(rng)).collect();
             if let Some(p) = present {
-                if rng.bool() {
-                    v.push(p.clone());
+                match rng.below(8) {
+                    0..=3 => v.push(p.clone()),
+                    // near misses of the message's id: trimmed, padded, case-changed, prefix
+                    4 => v.push(p.trim_end().to_string()),
+                    5 => v.push(format!("{} ", p)),
+                    6 => v.push(if rng.bool() { p.to_lowercase() } else { p.to_uppercase() }),
+                    _ => {}
                 }
             }
             if rng.chance(1, 4) && !v.is_empty() {
@@ -568,6 +573,11 @@ fn gen_c13(rng: &mut Rng, thorough: bool, out: &mut Cases) {
                             s.push(0);
                         }
                         s
+                    } else if i % 97 == 5 {
+                        // boundary field sizes: the sign bit of the 16-bit length and the maximum
+                        let k = *rng.pick(&[32767usize, 32768, 32769, 40000, 65535, 255, 256]);
+                        let fill = if t.kind == TypeInfoKind::StringType { 0x41u8 } else { rng.next() as u8 };
+                        vec![fill; k]
                     } else {
                         let k = rng.below(10) as usize;
                         (0..k).map(|_| *rng.pick(&[0x41u8, 0xc3, 0xa9, 0xff, 0x80, 0x00, 0xe2, 0x82, 0xac])).collect()
@@ -602,7 +612,7 @@ fn gen_c13(rng: &mut Rng, thorough: bool, out: &mut Cases) {
             out.push(13, w);
         };
         push(out, &data);
-        if i % 4 == 0 {
+        if i % 4 == 0 && data.len() < 2000 {
             for k in 0..data.len() {
                 push(out, &data[..k]);
             }
